@@ -329,7 +329,7 @@ def r4_margin(chk):
 
 
 def r5_mean(chk):
-    mean = chk.fn(REL, "Assorter.mean")
+    mean = chk.fn(REL, "Assorter.mean", canonical=True)
     f, node = aud.style_filter(mean)
     if f is None:
         raise AnalysisError("Assorter.mean: style-filter idiom not found")
